@@ -1155,3 +1155,61 @@ example :
       | .unmodelled _ => false) = true := by decide +kernel
 
 end FeedVerif.Mixin
+
+namespace FeedVerif.Mixin
+
+/-! ### summary, description and content of an entry (M-mixin stage 3) -/
+
+theorem kind_eqs : (S "description" == S "description") = true ∧ (S "summary" == S "description") = false ∧ (S "summary" == S "abstract") = false ∧
+    (S "summary" == S "summary") = true ∧ (S "content" == S "description") = false ∧ (S "content" == S "abstract") = false ∧
+    (S "content" == S "summary") = false ∧ (S "content" == S "content") = true ∧
+    (S "content_encoded" == S "description") = false ∧ (S "content_encoded" == S "abstract") = false ∧ (S "content_encoded" == S "summary") = false ∧
+    (S "content_encoded" == S "content") = false ∧ (S "content_encoded" == S "content_encoded") = true := by decide +kernel
+
+/-- **A description after the content is the summary, not a second content block** (the role of `hasContent`): once a content element
+(`<content>`, `<content:encoded>`, `<fullitem>`) has been seen in the entry, `<description>` / `<summary>` open an ordinary `description` /
+`summary` construct whatever `summary` the entry already has (e.g. the copy `_end_content` made) — they do not go through `_start_content`. -/
+theorem description_after_content_is_summary (s : Core) (a : List (Str × Str)) (h : s.hasContent = true) :
+    startExt s (S "description") a = startContentL s (S "description") a (S "text/html") (s.infeed || s.inentry) ∧
+    startExt s (S "summary") a = startContentL { s with summaryKey := some (S "summary") } (S "summary") a (S "text/plain") true := by
+  obtain ⟨k1, k2, k3, k4, _⟩ := kind_eqs
+  unfold startExt
+  simp only [h, Bool.not_true, Bool.and_false, Bool.false_eq_true, ↓reduceIte, k1, k2, k3, k4, and_self]
+
+/-- …and every content element raises the flag: after `<content>` / `<content:encoded>` the state has `hasContent` -/
+theorem content_sets_hasContent (s : Core) (a : List (Str × Str)) (c' : Core) (es : List Elem) :
+    (startExt s (S "content") a = .ok (c', es) → c'.hasContent = true) ∧
+    (startExt s (S "content_encoded") a = .ok (c', es) → c'.hasContent = true) := by
+  obtain ⟨_, _, _, _, k5, k6, k7, k8, k9, k10, k11, k12, k13⟩ := kind_eqs
+  unfold startExt
+  simp only [k5, k6, k7, k8, k9, k10, k11, k12, k13, Bool.false_eq_true, ↓reduceIte]
+  refine ⟨fun h => ?_, fun h => ?_⟩
+  · rw [(startContentElem_ok _ _ _ _ h).1]; rfl
+  · rw [(startContentL_ok _ _ _ _ _ _ _ h).1]; rfl
+
+/-- a SECOND description (no content element seen, a summary already stored) becomes a content element: `_summaryKey = "content"` -/
+theorem second_description_becomes_content (s : Core) (a : List (Str × Str)) (hs : (dget (contextD s) (S "summary")).isSome = true)
+    (h : s.hasContent = false) :
+    startExt s (S "description") a = startContentElem { s with summaryKey := some (S "content") } a := by
+  obtain ⟨k1, _⟩ := kind_eqs
+  unfold startExt
+  simp only [h, hs, Bool.not_false, Bool.and_self, ↓reduceIte, k1]
+
+/-- non-vacuity, and the guard of the source fingerprints: an RSS item with `<content:encoded>` BEFORE `<description>` — summary is the
+description, content is the one content block; then the usual order; then two descriptions (the second becomes content) -/
+example :
+    let o : Ops := { base := ⟨fun _ r => r, fun u => u, fun _ r => r⟩, join := fun _ u => u, fix := id, loose := false }
+    let start : MSt := { c := { entries := [{}], inentry := true, infeed := true, version := S "rss20" } }
+    let sumOf (r : Outcome) : Option V := match r with | .ok s' => s'.c.entries.head?.bind fun e => dget e.d (S "summary") | .unmodelled _ => none
+    let nContent (r : Outcome) : Nat := match r with
+      | .ok s' => (match s'.c.entries.head?.bind fun e => dget e.d (S "content") with | some (.l items) => items.length | _ => 0)
+      | .unmodelled _ => 99
+    (sumOf (mrun o start [.start (S "content_encoded") [], .data (S "FULL"), .stop (S "content_encoded"), .start (S "description") [], .data (S "SHORT"), .stop (S "description")]),
+     nContent (mrun o start [.start (S "content_encoded") [], .data (S "FULL"), .stop (S "content_encoded"), .start (S "description") [], .data (S "SHORT"), .stop (S "description")]),
+     sumOf (mrun o start [.start (S "description") [], .data (S "SHORT"), .stop (S "description"), .start (S "content_encoded") [], .data (S "FULL"), .stop (S "content_encoded")]),
+     nContent (mrun o start [.start (S "description") [], .data (S "ONE"), .stop (S "description"), .start (S "description") [], .data (S "TWO"), .stop (S "description")]),
+     sumOf (mrun o start [.start (S "summary") [], .data (S "S"), .stop (S "summary"), .start (S "content") [], .data (S "C"), .stop (S "content")]),
+     sumOf (mrun o start [.start (S "abstract") [], .data (S "A"), .stop (S "abstract")]))
+    = (some (.s (S "SHORT")), 1, some (.s (S "SHORT")), 1, some (.s (S "S")), some (.s (S "A"))) := by decide +kernel
+
+end FeedVerif.Mixin
